@@ -43,6 +43,14 @@ def generate(repo):
     if not re.search(r"fn result\(num_skipped: u32\) -> BuildBlockResult \{\s*if num_skipped > MAX_SKIPPED_ITEMS \{\s*BuildBlockResult::Done", c):
         raise TieBroken("compressed builder: fn result changed shape")
 
+    # the guard of the fix "block builders reject a declared cost above the block limit before summing": the mirror
+    # (Bundle/Builder.v, c_step = c_step_gen true) and the no-overflow theorems rest on it
+    if "if cost > constants.max_block_cost_clvm || self.byte_cost + self.block_cost + cost > constants.max_block_cost_clvm {" not in norm_ws(c):
+        raise TieBroken("compressed builder: the declared-cost guard `cost > max || byte + block + cost > max` of the second test is missing or changed")
+    if len(re.findall(r"self\.byte_cost \+ self\.block_cost \+ cost > constants\.max_block_cost_clvm", c)) != 2:
+        raise TieBroken("compressed builder: expected exactly two `byte_cost + block_cost + cost > max` tests")
+    out += "Definition C_DECLARED_COST_GUARD : bool := true.\n"
+
     out += "\n(* build_interned_block.rs *)\n"
     out += "Definition I_MAX_SKIPPED_ITEMS : N := %d.\n" % _const(i, "MAX_SKIPPED_ITEMS", "u32", "interned builder")
     out += "Definition I_MIN_COST_THRESHOLD : N := %d.\n" % _const(i, "MIN_COST_THRESHOLD", "u64", "interned builder")
@@ -51,6 +59,10 @@ def generate(repo):
     out += "Definition I_INITIAL_BLOCK_COST : N := %d.\n" % _initial_block_cost(i, "interned builder")
     if not re.search(r"fn result\(num_skipped: u32\) -> BuildBlockResult \{\s*if num_skipped > MAX_SKIPPED_ITEMS \{\s*BuildBlockResult::Done", i):
         raise TieBroken("interned builder: fn result changed shape")
+
+    if "if cost > self.max_block_cost || self.byte_cost + wrapper_cost + self.block_cost + cost > self.max_block_cost {" not in norm_ws(i):
+        raise TieBroken("interned builder: the declared-cost guard `cost > max || byte + wrapper + block + cost > max` of the second test is missing or changed")
+    out += "Definition I_DECLARED_COST_GUARD : bool := true.\n"
 
     g = strip_comments(read(repo, "crates/chia-consensus/src/generator_cost.rs"))
     body = norm_ws(fn_body(g, r"pub fn interned_vbytes\(tree: &InternedTree\) -> u64 \{", "interned_vbytes"))
